@@ -26,6 +26,7 @@ use std::rc::Rc;
 use vharness::*;
 
 mod oracle_c01;
+mod oracle_c02;
 mod oracle_c05;
 mod oracle_c06;
 mod oracle_c07;
@@ -666,17 +667,29 @@ fn gen_op(rng: &mut Rng, s: &Session, pool: &[(Syllable, Vec<KeyCode>)], pending
         return Op::Key(code, m);
     }
     let selecting = s.ed.is_selecting();
-    // the last column is C01's scenario arm (words removed under a composed syllable, engine switches); the
-    // C07 profile keeps its own mix (it has its own removal-of-a-displayed-candidate arm)
+    // C02: a commit string is still in the buffer and symbols remain (an overflow just happened): make the
+    // next overflow come from `select()`, which does not reset the commit buffer first
+    if !focus
+        && !selecting
+        && s.ed.last_key_behavior() == EditorKeyBehavior::Commit
+        && !s.ed.is_empty()
+        && !s.ed.display_commit().is_empty()
+        && rng.chance(1, 3)
+    {
+        return overflow_by_select(rng, s, pending);
+    }
+    // column `c01` is C01's scenario arm (words removed under a composed syllable, engine switches), the last
+    // three are C02's (known phrases + Tab + commit routes, breaks, overflow by select); the C07 profile keeps
+    // its own mix (it has its own removal-of-a-displayed-candidate arm)
     let w: Vec<u32> = if focus && selecting {
-        //   syl sym  nav del  open page choose tab commit mode opts api  learn reset jump c01
-        vec![1, 1, 1, 1, 1, 18, 9, 0, 0, 1, 3, 3, 2, 0, 8, 0]
+        //   syl sym  nav del  open page choose tab commit mode opts api  learn reset jump c01 phrase break ovsel
+        vec![1, 1, 1, 1, 1, 18, 9, 0, 0, 1, 3, 3, 2, 0, 8, 0, 0, 0, 0]
     } else if focus {
-        vec![30, 9, 12, 3, 22, 1, 2, 3, 1, 1, 3, 3, 2, 0, 0, 0]
+        vec![30, 9, 12, 3, 22, 1, 2, 3, 1, 1, 3, 3, 2, 0, 0, 0, 0, 0, 0]
     } else if selecting {
-        vec![2, 1, 2, 1, 1, 14, 10, 0, 1, 1, 2, 6, 1, 1, 4, 1]
+        vec![2, 1, 2, 1, 1, 14, 10, 0, 1, 1, 2, 6, 1, 1, 4, 1, 0, 0, 0]
     } else {
-        vec![30, 8, 10, 6, 10, 1, 2, 5, 3, 3, 4, 4, 3, 1, 0, 2]
+        vec![30, 8, 10, 6, 10, 1, 2, 5, 3, 3, 4, 4, 3, 1, 0, 2, 8, 3, 2]
     };
     let choice = rng.weighted(&w);
     if focus {
@@ -861,7 +874,7 @@ fn gen_op(rng: &mut Rng, s: &Session, pool: &[(Syllable, Vec<KeyCode>)], pending
         }
         13 => Op::Clear,
         14 => Op::Jump(rng.below(4) as u8),
-        _ => {
+        15 => {
             // C01: histories in which the stock of words changes under a composed syllable
             let mut seq: Vec<Op> = vec![];
             match rng.below(3) {
@@ -910,7 +923,89 @@ fn gen_op(rng: &mut Rng, s: &Session, pool: &[(Syllable, Vec<KeyCode>)], pending
             pending.extend(seq);
             first
         }
+        16 => {
+            // type the syllables of a phrase the dictionary knows (so that alternatives read differently,
+            // phrase intervals get committed, breaks can fall inside a phrase)
+            let known: Vec<&(Vec<Syllable>, String, u32)> = s
+                .sys
+                .iter()
+                .flatten()
+                .filter(|e| e.0.len() >= 2 && e.0.iter().all(|x| pool.iter().any(|p| p.0 == *x)))
+                .collect();
+            if known.is_empty() {
+                return Op::Key(Tab, plain);
+            }
+            let e = *rng.pick(&known);
+            let mut syls: Vec<Syllable> = e.0.clone();
+            // C02: chain a phrase that starts with the last syllable of the first one: only OVERLAPPING phrases
+            // survive the engine's path trimming as alternatives that read differently (AB|C vs A|BC)
+            let chain: Vec<&&(Vec<Syllable>, String, u32)> =
+                known.iter().filter(|f| f.0[0] == *syls.last().unwrap() && f.0 != e.0).collect();
+            if !chain.is_empty() && rng.chance(3, 4) {
+                let f = **rng.pick(&chain);
+                syls.extend_from_slice(&f.0[1..]);
+            }
+            let mut seq: Vec<Op> = vec![];
+            let expect = s.ed.len() + syls.len();
+            let mut o = s.ed.editor_options();
+            if o.auto_commit_threshold < expect && rng.chance(2, 3) {
+                o.auto_commit_threshold = expect + rng.below(3) as usize;
+                seq.push(Op::SetOpts(o));
+            }
+            for syl in &syls {
+                let keys = &pool.iter().find(|p| p.0 == *syl).unwrap().1;
+                seq.extend(keys.iter().map(|k| Op::Key(*k, plain)));
+            }
+            if rng.chance(1, 2) {
+                for _ in 0..(1 + rng.below(3)) {
+                    seq.push(Op::Key(Tab, plain));
+                }
+                // … and commit what the chosen alternative shows, by every route
+                match rng.below(8) {
+                    0 | 1 => seq.push(Op::Key(Enter, plain)),
+                    2 => seq.push(Op::Commit),
+                    3 | 4 => {
+                        o.auto_commit_threshold = rng.below(expect as u64) as usize;
+                        seq.push(Op::SetOpts(o));
+                        seq.extend(rng.pick(pool).1.iter().map(|k| Op::Key(*k, plain)));
+                    }
+                    5 => {
+                        o.auto_commit_threshold = rng.below(expect as u64) as usize;
+                        seq.push(Op::SetOpts(o));
+                        seq.push(Op::StartSel);
+                        seq.push(Op::Select(0));
+                    }
+                    _ => {}
+                }
+            }
+            seq.reverse();
+            let first = seq.pop().unwrap();
+            pending.extend(seq);
+            first
+        }
+        17 => {
+            // a break / glue inside the buffer
+            pending.push(Op::Key(Tab, plain));
+            if rng.chance(1, 2) {
+                pending.push(Op::Key(Left, plain));
+            }
+            Op::Key(Left, plain)
+        }
+        _ => overflow_by_select(rng, s, pending),
     }
+}
+
+/// lower the threshold below the current length, open the candidate list through the API, choose
+fn overflow_by_select(rng: &mut Rng, s: &Session, pending: &mut Vec<Op>) -> Op {
+    let len = s.ed.len();
+    if len == 0 {
+        return Op::StartSel;
+    }
+    let mut o = s.ed.editor_options();
+    o.auto_commit_threshold = rng.below(len as u64) as usize;
+    pending.push(Op::Select(*rng.pick(&[0usize, 0, 0, 1])));
+    pending.push(Op::StartSel);
+    Op::SetOpts(o)
 }
 
 fn op_s(op: &Op, ev: &Option<KeyEvent>) -> String {
@@ -1004,6 +1099,22 @@ fn main() {
         let mut rng = Rng::new(seed.wrapping_mul(1_000_003).wrapping_add(sid));
         let words_for_all = !rng.chance(1, 6);
         let sys: Vec<SysLayer> = (0..(1 + rng.below(2))).map(|_| gen_layer(&mut rng, &pool, words_for_all)).collect();
+        // C02: overlapping phrase pairs (a b) / (b c) in two sessions out of three (own stream: the other choices are
+        // unchanged) — the engine offers alternatives that READ differently only for overlapping phrases
+        let mut rng_c02 = Rng::new(seed.wrapping_mul(7_777_777).wrapping_add(sid));
+        let mut sys = sys;
+        if rng_c02.chance(2, 3) {
+            for _ in 0..(1 + rng_c02.below(3)) {
+                let (a, b, c) = (rng_c02.pick(&pool).0, rng_c02.pick(&pool).0, rng_c02.pick(&pool).0);
+                for k in [vec![a, b], vec![b, c]] {
+                    let p = gen_phrase(&mut rng_c02, 2);
+                    let f = *rng_c02.pick(&[1u32, 10, 100, 100, 500, 1000]);
+                    if !sys[0].iter().any(|e| e.0 == k && e.1 == p) {
+                        sys[0].push((k, p, f));
+                    }
+                }
+            }
+        }
         let sys_boxes: Vec<Box<dyn Dictionary>> = sys
             .iter()
             .map(|layer| {
@@ -1051,6 +1162,10 @@ fn main() {
         for _ in 0..rng.below(4) {
             o = gen_opts(&mut rng, &o, engine_kind, focus);
         }
+        // C02: every third session starts with a small buffer limit (own stream: the other choices are unchanged)
+        if rng_c02.chance(1, 3) {
+            o.auto_commit_threshold = rng_c02.below(8) as usize;
+        }
         ed.set_editor_options(o);
         let mut s = Session { ed, lay, conv_log, user: user_ptr, sys, layout_kind, probes, engine_kind };
         let uniform = rng.chance(1, 8);
@@ -1091,6 +1206,10 @@ fn main() {
             let pre = s.ed.verif_snapshot();
             let dict_pre = s.dict_s();
             let lay_ans = s.layout_answers(ev);
+            // what the application sees before the operation (C02); getters only, before the log is reset
+            LOOKUPS.with(|c| c.set(0));
+            let display_pre = catch_unwind(AssertUnwindSafe(|| s.ed.display())).ok();
+            let len_pre = s.ed.len();
             s.conv_log.borrow_mut().clear();
             let st_ix = match pre.as_bytes()[0] {
                 b'E' => 0,
@@ -1171,6 +1290,7 @@ fn main() {
             max_lookups = max_lookups.max(LOOKUPS.with(|c| c.get()).min(LOOKUP_FUEL));
             n_ops += 1;
             let conv_ans = s.conv_answers();
+            let conv_step = s.conv_log.borrow().clone();
             let mut opstr = op_s(&op, &ev);
             if let Op::SetLayout(_) = op {
                 let _ = write!(opstr, " {}", if new_layout_state.is_empty() { lay_state(&**s.lay.borrow()) } else { new_layout_state.clone() });
@@ -1221,13 +1341,20 @@ fn main() {
                     // C07: the open candidate list as the getters report it (a getter that fails is `panicked`)
                     LOOKUPS.with(|c| c.set(0));
                     let cand_post = s.cand_view(&post);
+                    // C02: what is shown / committed after the operation
+                    let display_post = catch_unwind(AssertUnwindSafe(|| s.ed.display())).ok();
+                    let commit_post = s.ed.display_commit().to_string();
+                    s.conv_log.borrow_mut().clear();
                     let step = Step {
                         op: &opstr, key: ev, pre: &pre, post: &post, ret: &ret,
                         dict_pre: &dict_pre, dict_post: &dict_post, history: &history, seed, sid,
                         cand_pre: cand_pre.as_ref(), cand_post: cand_post.as_ref(),
                         outcome: "ok", no_word_pre: no_word_pre.as_deref(), no_word_post: no_word_post.as_deref(), getter_fail,
+                        display_pre: display_pre.as_deref(), display_post: display_post.as_deref(),
+                        len_pre, len_post: s.ed.len(), commit_post: &commit_post, conv: &conv_step,
                     };
                     // the properties, evaluated directly on the real editor (one module per property)
+                    oracle_c02::check(&mut out, &step);
                     oracle_c05::check(&mut out, &step);
                     oracle_c06::check(&mut out, &step);
                     oracle_c07::check(&mut out, &step);
@@ -1261,6 +1388,8 @@ fn main() {
                         dict_pre: &dict_pre, dict_post: &dict_pre, history: &history, seed, sid,
                         cand_pre: cand_pre.as_ref(), cand_post: None,
                         outcome: how, no_word_pre: no_word_pre.as_deref(), no_word_post: None, getter_fail: None,
+                        display_pre: display_pre.as_deref(), display_post: None,
+                        len_pre, len_post: len_pre, commit_post: "", conv: &conv_step,
                     };
                     oracle_c01::check(&mut out, &step);
                     if how == "hang" {
@@ -1314,5 +1443,6 @@ fn main() {
     out.stat("profile_c07", focus as u8);
     out.stat("down_keys_replaced_by_hang_guard", n_hang_guard);
     oracle_c07::finish(&mut out);
+    oracle_c02::stats(&mut out);
     out.flush();
 }
